@@ -78,6 +78,16 @@ class VC:
     def fresh(self, name, kind):
         return self.path.fresh(name, kind)
 
+    def new(self, class_fq, *args, **kwargs):
+        """instantiate through the real constructor"""
+        return self.interp.instantiate(self.interp.get_class(class_fq), list(args), kwargs)
+
+    def enum(self, class_fq, member):
+        return self.interp.get_class(class_fq).ns[member]
+
+    def method(self, obj, name, *args, **kwargs):
+        return self.interp.call(self.interp.getattr(obj, name), list(args), kwargs)
+
     # ---- logic
     def assume(self, f):
         self.path.assume(f)
